@@ -220,10 +220,16 @@ def gen_case(rng, malformed=False):
                 a = rng.choice(others)
                 cells[a]['fill'] = cells[a]['u']
                 cells[a]['filltr'] = cells[a]['filltr'] or ()
+    ifd, ifg = rng.random() < 0.4, rng.random() < 0.4
+    # inline_cells afterwards (only on trees without ('^', c) nodes, which
+    # are gone at that stage of the conversion): max_inline_score = num/den
+    inl = None
+    if not do_trcl and rng.random() < 0.6:
+        inl = rng.choice([(0, 1), (1, 1), (1, 1), (3, 2), (2, 1), (5, 2),
+                          (4, 1), (7, 1), (20, 1)])
     return {'cells': cells, 'pool': pool, 'surf_ids': surf_ids,
             'nck': nck, 'nsk': nsk, 'do_trcl': do_trcl,
-            'ifd': rng.random() < 0.4, 'ifg': rng.random() < 0.4,
-            'fault': fault}
+            'ifd': ifd, 'ifg': ifg, 'inl': inl, 'fault': fault}
 
 
 # ---- implementation side ----------------------------------------------------
@@ -336,10 +342,20 @@ class Runner:
             for key in fill_keys:
                 results.append([int(k) for k in conv.pot_fill(
                     key, dict_universe, case['ifd'], case['ifg'])])
+            if case.get('inl') is not None:
+                import contextlib
+                import io
+                from t4_geom_convert.Kernel.Volume.CellInlining import \
+                    inline_cells
+                num, den = case['inl']
+                with contextlib.redirect_stdout(io.StringIO()):
+                    inline_cells(cells, num / den)
         except KeyError:
             return ('err', 1)
         except RecursionError:
             return ('err', 2)
+        except TypeError:
+            return ('err', 3)
         finally:
             sys.setrecursionlimit(old_limit)
         obs = {'du': du_obs, 'results': results,
@@ -441,4 +457,6 @@ def coq_case(case, runner, outcome):
         out = f'(OOk {coq_obs(outcome[1])})'
     return ('(mkCase ' + cells + ' ' + clist(cz(s) for s in case['surf_ids'])
             + f' {cz(case["nck"])} {cz(case["nsk"])} {cbool(case["do_trcl"])}'
-            f' {cbool(case["ifd"])} {cbool(case["ifg"])} {out})')
+            f' {cbool(case["ifd"])} {cbool(case["ifg"])} '
+            + copt(case.get('inl'), lambda nd: cpair(cz(nd[0]), cz(nd[1])))
+            + f' {out})')
